@@ -311,6 +311,26 @@ fn run_inner(case: &Sx) -> Sx {
         }
         Ok(Ok(v)) => v,
     };
+    // optional seventh item i1: load the main file once more by its BARE name with the working directory set to its directory (a tool
+    // started in the project directory) - the same files must give an equal model
+    let bare: Sx = match c.get(6) {
+        Some(Sx::I(1)) => {
+            let dir = main.parent().map(|p| p.to_path_buf()).unwrap_or_default();
+            let name = main.file_name().map(|n| n.to_os_string()).unwrap_or_default();
+            let back = std::env::current_dir().ok();
+            let _ = std::env::set_current_dir(&dir);
+            let r = catch_unwind(AssertUnwindSafe(|| a2lfile::load(Path::new(&name), None, strict)));
+            if let Some(b) = back {
+                let _ = std::env::set_current_dir(b);
+            }
+            match r {
+                Err(_) => Sx::L(vec![Sx::s("PANIC")]),
+                Ok(Err(e)) => Sx::L(vec![Sx::s("ERR"), Sx::s(&e.to_string())]),
+                Ok(Ok((f2, _))) => Sx::L(vec![Sx::s(if f2 == file { "SAME" } else { "DIFF" })]),
+            }
+        }
+        _ => Sx::L(vec![]),
+    };
     // optional fifth item: edits through the public API before anything is written
     //   op ::= ( spush i<kind> s<name> ) | ( ssni ) | ( ssort )      (kinds as in edit.rs; the first MODULE is edited)
     let mut file = file;
@@ -342,7 +362,7 @@ fn run_inner(case: &Sx) -> Sx {
     let rel = reload(&file, &text1, &main, strict);
     let (mrg, merged_model) = merged(&file, strict);
     let flt = flat(&file, &merged_model, &flat_text, strict);
-    Sx::L(vec![Sx::s("OK"), dump, diags(&log), Sx::s(&text1), rel, mrg, flt])
+    Sx::L(vec![Sx::s("OK"), dump, diags(&log), Sx::s(&text1), rel, mrg, flt, bare])
 }
 
 pub fn run(case: &Sx) -> Sx {
